@@ -65,7 +65,34 @@ def canon_exc(x):
     return out
 
 
+def _touchy(v):
+    """Every JSON object as a collections.defaultdict whose missing keys materialise on a mere READ (a recursive
+    defaultdict tree is a common way to build documents): to the library it is a dict, i.e. an "object"; code
+    that subscripts a key it has not tested for inserts that key - validation would modify the instance."""
+    import collections
+    if isinstance(v, list):
+        return [_touchy(x) for x in v]
+    if isinstance(v, dict):
+        d = collections.defaultdict(_touchy_factory)
+        for k, x in v.items():
+            d[k] = _touchy(x)
+        return d
+    return v
+
+
+def _touchy_factory():
+    import collections
+    return collections.defaultdict(_touchy_factory)
+
+
 def materialise(value, world):
+    out = _materialise(value, world)
+    if world.get("touchy_instances"):
+        out = _touchy(out)
+    return out
+
+
+def _materialise(value, world):
     """A fresh copy of an instance; in `decimal_floats` worlds every float arrives as decimal.Decimal
     (what json.loads(..., parse_float=Decimal) gives a caller): numbers are numbers.Number to the library."""
     if isinstance(value, dict) and list(value) == ["$deep"]:
@@ -660,4 +687,12 @@ def do_op(actor, op, instances):
         out = {"k": "raised", "exc": canon_exc(x)}
     if inst is not None:
         out["_instance_mutated"] = fast(inst) != inst0
+        if kind == "tree" and actor.world.get("touchy_instances"):
+            # ErrorTree subscripts the instance BY DESIGN (documented: an index unknown to the tree is tried on
+            # the instance so that its own KeyError/IndexError propagates), and draft 3 reports a missing
+            # required property under that property's path: on a defaultdict the probe inserts the key.  That is
+            # the error-reporting helper doing what it documents, not validation modifying the instance.
+            if out["_instance_mutated"]:
+                actor.probe("errortree_probe_inserted_key_into_defaultdict")
+            out["_instance_mutated"] = False
     return out
